@@ -136,8 +136,8 @@ def isCustom : Option (Option AuthImpl) → Bool
   | _ => false
 
 /-- canonical rendering of a connection attempt; a process-fatal outcome is rendered `crash:<function> …` -/
-def showTrace (t : Trace) (custom withProv : Bool) : String :=
-  let body := "sent=" ++ showList (t.sent.map showSent) ++
+def showTrace (t : Trace) (custom withProv : Bool) (pre : String := "") : String :=
+  let body := pre ++ "sent=" ++ showList (t.sent.map showSent) ++
     " calls=" ++ (if custom then showList (t.calls.map showCall) else "-") ++
     (if withProv then " prov=" ++ showList (t.provCalls.map toString) else "")
   if t.outcome = .crash then "crash:authenticateHandshake " ++ body
@@ -199,7 +199,12 @@ def step (_ : Unit) (ws : List String) : Unit × String :=
   | "newsession" :: h :: st :: pv :: fs => match parseConn h st pv, fs.mapM parseFrame with
     | some (h, cfg), some fs =>
       let r := newSession cfg h fs
-      s!"dials={r.2} post={bit (r.1.outcome = .ready)} " ++ showTrace r.1 (isCustom (Spec.credentials cfg h)) true
+      showTrace r.1 (isCustom (Spec.credentials cfg h) && r.2 != 0) true s!"dials={r.2} post={bit (r.1.outcome = .ready)} "
+    | _, _ => "bad-op"
+  -- C20_session_config: both Authenticator and AuthProvider ⇒ refused before anything is dialled
+  | "sesscfg" :: h :: st :: pv :: fs => match parseConn h st pv, fs.mapM parseFrame with
+    | some (_, cfg), some _ =>
+      if cfg.static.isSome && cfg.provider.isSome then "refused:both dials=0" else "accepted dials=1"
     | _, _ => "bad-op"
   -- property-oracle ops (spec-backed): the answer is what the PROPERTY demands; the theorems of Proofs/C20.lean
   -- say the model gives the same
